@@ -1170,6 +1170,9 @@ class Lib:
         if name == 'add':
             recv.add(args[0])
             return None
+        if name in ('issubset', 'issuperset', 'intersection', 'union', 'difference', 'isdisjoint') and len(args) == 1 and isinstance(args[0], (set, frozenset, dict, list, tuple)) \
+                and all(isinstance(x, (str, int)) for x in recv) and all(isinstance(x, (str, int)) for x in args[0]):
+            return getattr(recv, name)(set(args[0]))      # concrete sets of literals
         raise Undecided(f'set.{name}')
 
     def narrow(self, I, v, et):
